@@ -14,10 +14,10 @@ META = {
  "harnesses": {
   "h_version_perm": {"kind": "G", "functions": _FUNCS,
     "bounds": "catalogue of 15 documents of 5 lines (pure GFA1 with/without VN, pure GFA2 with/without VN, version-neutral, mixed L+E, mixed S syntaxes, custom record + GFA1 lines, VN contradicting content, unsupported VN) x all 120 arrival orders x version parameter in {None, gfa1, gfa2} x vlevel 1..3 (thorough; quick: vlevel 1)",
-    "timeout": {"quick": 400, "thorough": 1200}, "parts": {"quick": 16, "thorough": 16}},
+    "timeout": {"quick": 400, "thorough": 900}, "parts": {"quick": 16, "thorough": 16}},
   "h_version_six": {"kind": "G", "functions": _FUNCS, "tiers": ["thorough"],
     "bounds": "4 documents of 6 lines x all 720 arrival orders x version parameter",
-    "timeout": {"thorough": 1200}, "parts": {"thorough": 16}},
+    "timeout": {"thorough": 900}, "parts": {"thorough": 16}},
   "h_dialect_file": {"kind": "G", "functions": _FUNCS,
     "bounds": "rGFA / standard dialect x version parameter x 6 documents x {Gfa(list), Gfa(string), from_file} for the identity and the reversed order",
     "timeout": {"quick": 300, "thorough": 600}, "parts": {"quick": 4, "thorough": 4}},
